@@ -583,6 +583,11 @@ def generic_bad(good):
         for k in sorted(d)[:6]:
             out.append((f"good with .{k} = None", ("__setattr__", k, None)))
             out.append((f"good without .{k}", ("__delattr__", k)))
+        # one nested scalar made unusable (a call that fails AFTER part of the work was done: last elements first)
+        deep = [(pth, v) for pth, v in _attr_paths(g, cap=40) if len(pth) > 1]
+        for pth, v in deep[-6:] + deep[:4]:
+            out.append((f"good with {_pathstr(pth)} = None", ("__setpath__", list(pth), None)))
+            out.append((f"good with {_pathstr(pth)} = 2^70", ("__setpath__", list(pth), 1 << 70)))
     return out
 
 
@@ -598,9 +603,11 @@ def _bad_list(ep, pos, good):
 
 def _apply_bad(args, pos, bad):
     a = list(args)
-    if isinstance(bad, tuple) and len(bad) >= 2 and bad[0] in ("__setattr__", "__delattr__"):
+    if isinstance(bad, tuple) and len(bad) >= 2 and bad[0] in ("__setattr__", "__delattr__", "__setpath__"):
         try:
-            if bad[0] == "__setattr__":
+            if bad[0] == "__setpath__":
+                setattr(_walk(a[pos], bad[1][:-1]), bad[1][-1], bad[2])
+            elif bad[0] == "__setattr__":
                 setattr(a[pos], bad[1], bad[2])
             else:
                 delattr(a[pos], bad[1])
@@ -1074,9 +1081,11 @@ def probe_failed_call(eps, p):
             bad = _apply_bad(good, p["pos"], v)
     if bad is None:
         return "n/a"
-    r = ep.run(bad, limit=2.0)
+    r = ep.run(bad, limit=0.4)
     if not isinstance(r, _Raised):
         return "accepted"
+    if isinstance(r.exc, CallTimeout):
+        SLOW.add((ep.name, p["pos"], p["bad"]))
     r1 = then.ans(then.args(d))
     steps = [f"ref = {then.name}(args#{d}) = {short(ref, 70)}", f"{ep.name}(args#{d} with argument {p['pos']} := {p['bad']}) raises {type(r.exc).__name__}",
              f"r1 = {then.name}(fresh args#{d})"]
@@ -1107,6 +1116,7 @@ def run_sequence(eps, seq):
     return {"answers": answers, "held": held}
 
 
+SLOW = set()  # (ep, position, bad label) whose call ran into the limit: not tried again in this process
 TIMES = {}  # wall time per probe kind of the last run (development aid; never part of the evidence)
 PROBES = {
     "repeat": probe_repeat,
@@ -1370,6 +1380,9 @@ def run(ctx, entry_points, module=None, draws=None, seconds=None, pristine=True,
                             break
                         if k > 0 and not (thorough or ctx.boost > 1) and (bi + k + base) % 3:
                             continue  # quick: the full list on the first draw, a rotating third on the others
+                        if (name, pos, label) in SLOW:
+                            ctx.count(f"hist:failed-call:slow-bad-call-not-repeated:{name}")
+                            continue
                         one("failed-call", ep, {"ep": name, "draw": d, "pos": pos, "bad": label})
                         if others and (thorough or ctx.boost > 1 or j % 3 == 0):
                             one("failed-call", ep, {"ep": name, "draw": d, "pos": pos, "bad": label, "then": others[(j // 3) % len(others)]})
@@ -1387,7 +1400,9 @@ def run(ctx, entry_points, module=None, draws=None, seconds=None, pristine=True,
     # P8: pristine-order probe
     if pristine and any(_applicable(e, "interleave") for e in eps.values()):
         try:
-            _interleave(ctx, eps, module, base, nd, groups, guard, report)
+            g2 = _Guard((10 if not thorough else 240) * (2 if ctx.boost > 1 else 1))  # a share of its own
+            _interleave(ctx, eps, module, base, nd, groups, g2, report)
+            guard.hit = guard.hit or g2.hit
         except Exception as e:  # noqa
             ctx.count(f"hist:interleave:unavailable:{type(e).__name__}")
             ctx.notes.append(f"histories: pristine-order probe not run ({type(e).__name__}: {str(e)[:120]})")
